@@ -58,7 +58,9 @@ var c08Imports = []string{
 // c08Bodies: declarations with qualified identifiers and comments / line breaks around the dot.
 func c08Bodies() []string {
 	gapsBefore := []string{"", "/* b */ ", "// lead\n\t"}
-	gapsDot := []string{"", " /* d */ ", "\n\t\t", "\n\t\t/* e */ ", " // x\n\t\t", " /* d */\n\t\t// y\n\t\t"}
+	gapsDot := []string{"", " /* d */ ", "\n\t\t", "\n\t\t/* e */ ", " // x\n\t\t", " /* d */\n\t\t// y\n\t\t",
+		// empty lines behind the dot: after a line break, a line comment, a block comment, between comments
+		"\n\n\t\t", " // x\n\n\t\t", " /* d */\n\n\t\t", " // x\n\n\t\t// y\n\t\t", "\n\t\t// y\n\n\t\t"}
 	gapsAfter := []string{"", " /* a */", " // t"}
 	var out []string
 	for _, gb := range gapsBefore {
